@@ -566,6 +566,10 @@ def _producer_sig(t):
             # only producers of report content count; date/boundary helpers are covered by R1
             if "NaiveDate" in (F_RET.get(c) or "") or "TaxPeriod" in (F_RET.get(c) or ""):
                 continue
+            # how the year's legs are SELECTED differs between the two paths by design (date filter vs per-year grouping)
+            # and is checked by R1/R4; only what is computed FROM them is compared
+            if "matcher::MatchResult" in (F_RET.get(c) or "") and "TaxYearSummary" not in (F_RET.get(c) or "") and "Disposal" not in (F_RET.get(c) or ""):
+                continue
             out.add(c.split("::", 1)[-1])
         elif m in ("get", "unwrap_or_default", "abs", "sum"):
             out.add(m)
